@@ -5,7 +5,7 @@ import pywt
 from fractions import Fraction
 import symtorch
 from symtorch import poly as P, tensor as T
-from vlib import core, oracles, smt
+from vlib import core, oracles, smt, lincheck
 from harness import dwtlib as D
 from harness import C01
 
@@ -67,13 +67,41 @@ def _crop(a, cfg):
     return a[:, :, :cfg['H'], :cfg['W']]
 
 
+def case(cfg, ident):
+    in_specs = [('x', D.in_shape(cfg))]
+
+    def impl(pw, ts):
+        y = _roundtrip(pw, cfg, ts[0])
+        sp = D.in_shape(cfg)[2:]
+        ok = len(y.shape) == len(sp) + 2 and all(g == s_ or (s_ % 2 == 1 and g == s_ + 1) for g, s_ in zip(tuple(y.shape[2:]), sp))
+        if not ok:
+            raise AssertionError('reconstruction has shape %s for input %s (N or N+1 per axis expected)' % (tuple(y.shape), D.in_shape(cfg)))
+        return [('rec', _crop(y, cfg))]
+
+    def ref(arrs):
+        x = arrs[0]
+        if ident:
+            return [x]
+        if cfg['dim'] == 1:
+            co = pywt.wavedec(x, cfg['wave'], mode=cfg['mode'], level=cfg['J'], axis=-1)
+            return [pywt.waverec(co, cfg['wave'], mode=cfg['mode'], axis=-1)[..., :cfg['N']]]
+        co = pywt.wavedec2(x, cfg['wave'], mode=cfg['mode'], level=cfg['J'], axes=(-2, -1))
+        return [pywt.waverec2(co, cfg['wave'], mode=cfg['mode'], axes=(-2, -1))[..., :cfg['H'], :cfg['W']]]
+    return in_specs, impl, ref
+
+
 def run_config(cfg):
     res = core.Result(cfg)
     core.begin()
     facts = C01._facts(cfg)
     facts['transform'] = 'dwt%dd.roundtrip' % cfg['dim']
     shape = D.in_shape(cfg)
-    B, C = cfg['B'], cfg['C']
+    rt = symtorch.real_torch()
+    # the property quantifies over configurations on which the forward transform returns
+    fo = core.outcome(lambda: _fwd_only(symtorch.real(), cfg, rt.zeros(*shape, dtype=rt.float64)))
+    if fo[0] != 'ok':
+        res.status = 'skipped'; res.notes.append('forward transform raises (%s): outside the quantifier of C02' % (fo[1],))
+        return res
     try:
         rows = _oracle_rec_rows(cfg)
     except Exception as e:
@@ -81,109 +109,22 @@ def run_config(cfg):
         return res
     sp = shape[2:]
     nsl = int(np.prod(sp))
-    rows_c = rows[tuple(slice(0, s) for s in sp)].reshape(-1, nsl)     # original extent
+    rows_c = rows[tuple(slice(0, s_) for s_ in sp)].reshape(-1, nsl)
     pr_err = float(np.abs(rows_c - np.eye(nsl)).max())
-    scale = D.gain([rows_c])
-    tau = Fraction(1, 10 ** 9) * Fraction(scale)
-    tau_pr = Fraction(1, 10 ** 7) * Fraction(scale)
-    # forward must return for the property to apply
-    rt = symtorch.real_torch()
-    fo = core.outcome(lambda: _fwd_only(symtorch.real(), cfg, rt.zeros(*shape, dtype=rt.float64)))
-    if fo[0] != 'ok':
-        res.status = 'skipped'; res.notes.append('forward transform raises (%s): outside the quantifier of C02' % (fo[1],))
-        return res
-    t0 = time.time()
-    with symtorch.symbolic():
-        x, ids = core.symin(shape)
-        so = core.outcome(lambda: _roundtrip(symtorch.sym(), cfg, x))
-    res.symexec_s = time.time() - t0
-    res.funcs = sorted(T.STATE.funcs_entered)
-    E, n = D.basis_batch(shape)
-    ro = core.outcome(lambda: _roundtrip(symtorch.real(), cfg, rt.tensor(E, dtype=rt.float64)))
-    if not D.same_outcome(res, so, ro):
-        return res
-    if so[0] == 'raise':
-        res.status = 'violation'
-        res.violations.append(dict(what='inverse raises %s: %s on the output of the forward transform' % (so[1], so[2][:120]), facts=facts,
-                                   replay=dict(kind='raise'), reproduced=True))
-        return res
-    y = so[1]; ry = ro[1]
-    # shape: N or N+1 per axis (N+1 only for odd N)
-    ok_shape = tuple(y.shape[:2]) == tuple(shape[:2]) and len(y.shape) == len(shape) and \
-        all(g == s or (s % 2 == 1 and g == s + 1) for g, s in zip(y.shape[2:], sp))
-    if not ok_shape:
-        res.status = 'violation'
-        res.violations.append(dict(what='reconstruction has shape %s for input %s' % (tuple(y.shape), shape), facts=facts,
-                                   replay=dict(kind='shape'), reproduced=tuple(ry.shape[1:]) == tuple(y.shape[1:])))
-        return res
-    dev = D.validate_linear([y.a], [ry], ids, n, B)
-    res.validated = dev
-    if dev > 1e-10 * scale:
-        res.status = 'error'; res.trace = 'symbolic operator deviates from real torch by %g' % dev
-        return res
-    yc = _crop(y.a, cfg)
-    st = smt.Stats(); solver = smt.Solver(stats=st)
-    # (i) never worse than PyWavelets
-    refs = []
-    for b in range(B):
-        for c in range(C):
-            refs.extend(core.ref_poly_rows(rows_c, ids[b, c].reshape(-1)))
-    sats = D.decide_bands(res, solver, [yc], [refs], tau, ['rec'])
-    kind = 'vs_pywt'
-    # (ii) identity where PyWavelets itself reconstructs perfectly
-    if not sats and pr_err <= 1e-9:
-        ident = [P.Poly.var(int(a)) for a in ids.reshape(-1)]
-        sats = D.decide_bands(res, solver, [yc], [ident], tau_pr, ['rec'])
-        kind = 'vs_identity'
-    if not D.canary_ok(res, yc.reshape(-1)[0] - refs[0], ids.reshape(-1)[0], tau):
-        return res
-    res.stats = st
     res.notes.append('pywt PR error %.2e' % pr_err)
-    for name, k, model in sats:
-        xv = core.model_array(model, ids)
-        rep = _replay_values(cfg, xv, k, kind, float(tau if kind == 'vs_pywt' else tau_pr))
-        res.violations.append(dict(what='reconstruction sample %d differs from %s by %.3g' % (k, 'PyWavelets' if kind == 'vs_pywt' else 'the input', rep['diff']),
-                                   facts=facts, replay=dict(kind='values', x=xv.tolist(), k=int(k), ref=kind,
-                                                            tau=float(tau if kind == 'vs_pywt' else tau_pr)),
-                                   reproduced=rep['reproduced']))
-    if res.violations:
-        res.status = 'violation'
+    # (i) never worse than PyWavelets
+    in_specs, impl, ref = case(cfg, False)
+    lincheck.check_linear(res, cfg, facts, in_specs, impl, ref, what='reconstruction vs PyWavelets round trip')
+    # (ii) identity where PyWavelets itself reconstructs perfectly (this defines the PR class)
+    if res.status == 'held' and pr_err <= 1e-9:
+        in_specs, impl, ref = case(cfg, True)
+        lincheck.check_linear(res, cfg, facts, in_specs, impl, ref, tau_rel=1e-7, what='reconstruction vs the input')
     return res
 
 
-def _replay_values(cfg, xv, k, kind, tau):
-    rt = symtorch.real_torch()
-    y = _roundtrip(symtorch.real(), cfg, rt.tensor(xv, dtype=rt.float64)).detach().numpy()
-    yc = _crop(y, cfg)
-    if kind == 'vs_identity':
-        ref = xv
-    else:
-        ref = np.empty_like(xv)
-        for b in range(cfg['B']):
-            for c in range(cfg['C']):
-                if cfg['dim'] == 1:
-                    co = pywt.wavedec(xv[b, c], cfg['wave'], mode=cfg['mode'], level=cfg['J'])
-                    ref[b, c] = pywt.waverec(co, cfg['wave'], mode=cfg['mode'])[:cfg['N']]
-                else:
-                    co = pywt.wavedec2(xv[b, c], cfg['wave'], mode=cfg['mode'], level=cfg['J'])
-                    ref[b, c] = pywt.waverec2(co, cfg['wave'], mode=cfg['mode'])[:cfg['H'], :cfg['W']]
-    diff = abs(float(yc.reshape(-1)[k]) - float(ref.reshape(-1)[k]))
-    return dict(reproduced=diff > tau / 2, diff=diff)
-
-
 def replay(payload):
-    cfg = payload['config']; rp = payload['replay']
     core.begin()
-    rt = symtorch.real_torch()
-    if rp['kind'] == 'values':
-        r = _replay_values(cfg, np.array(rp['x']), rp['k'], rp['ref'], rp['tau'])
-        return dict(reproduced=r['reproduced'], detail=r)
-    shape = D.in_shape(cfg)
-    ro = core.outcome(lambda: _roundtrip(symtorch.real(), cfg, rt.zeros(*shape, dtype=rt.float64)))
-    if rp['kind'] == 'raise':
-        return dict(reproduced=ro[0] == 'raise', detail=ro[:3])
-    if ro[0] != 'ok':
-        return dict(reproduced=True, detail=ro[:3])
-    g = tuple(ro[1].shape)
-    ok = all(a == s or (s % 2 == 1 and a == s + 1) for a, s in zip(g[2:], shape[2:]))
-    return dict(reproduced=not ok, detail=dict(got=g))
+    cfg = payload['config']
+    ident = 'vs the input' in (payload.get('what') or '')
+    in_specs, impl, ref = case(cfg, ident)
+    return lincheck.replay_generic(payload, in_specs, impl, ref)
